@@ -219,6 +219,54 @@ def h_arith(env, fam, L, R, op, aspect, pairs, canary=False, reject_ok=False):
             check_unchanged(env, sb, b, f"{desc}: right operand unchanged", perturb=canary)
 
 
+def h_scalar_types(env, cls):
+    """ENUMERATED shape (concrete numbers; the symbolic shapes above take the scalar as a solver variable of Python type):
+    every numeric scalar TYPE - Python and numpy, signed / unsigned / single precision / complex - in every position of
+    + - * / and the in-place forms gives the reference value and leaves the operator unchanged"""
+    import operator as O
+    import numpy as np
+    from symx import shim
+    scalars = [np.uint8(3), np.uint32(2), np.int8(-2), np.int64(5), np.float32(0.5), np.float64(-1.25), np.complex64(1 + 2j),
+               np.complex128(0.5 - 1j), 2, 1.5, (1 + 1j), True]
+    ops = {"+": O.add, "-": O.sub, "*": O.mul, "/": O.truediv, "s+": lambda a, s_: s_ + a, "s-": lambda a, s_: s_ - a, "s*": lambda a, s_: s_ * a,
+           "+=": O.iadd, "-=": O.isub, "*=": O.imul, "/=": O.itruediv}
+    words = {"F": [((1, 1), (0, 0)), ((2, 1), (2, 0))], "Q": [((0, "X"), (1, "Y")), ((2, "Z"),)]}["F" if cls.startswith("F") else "Q"]
+
+    def ref(t, on, s_):
+        s_, t = complex(s_), dict(t)
+        if on in ("+", "s+", "+="):
+            t[()] = t.get((), 0) + s_
+        elif on in ("-", "-="):
+            t[()] = t.get((), 0) - s_
+        elif on == "s-":
+            t = {k: -v for k, v in t.items()}
+            t[()] = t.get((), 0) + s_
+        elif on in ("*", "s*", "*="):
+            t = {k: v * s_ for k, v in t.items()}
+        else:
+            t = {k: v / s_ for k, v in t.items()}
+        return {k: v for k, v in t.items() if abs(v) > 1e-12}
+    bad = []
+    with shim.concrete_mode():
+        for on, f in ops.items():
+            for s_ in scalars:
+                a = _new(cls)
+                a.terms = {words[0]: 0.5, words[1]: -1.5}
+                t0 = dict(a.terms)
+                try:
+                    r = f(a, s_)
+                except Exception as e:          # noqa
+                    bad.append((on, type(s_).__name__, f"{type(e).__name__}: {e}"[:80]))
+                    continue
+                got = {k: complex(v) for k, v in r.terms.items() if abs(v) > 1e-12}
+                want = ref(t0, on, s_)
+                if set(got) != set(want) or any(abs(got[k] - want[k]) > 1e-6 for k in got):
+                    bad.append((on, type(s_).__name__, "wrong value", got, want))
+                if not on.endswith("=") and dict(a.terms) != t0:
+                    bad.append((on, type(s_).__name__, "operand changed"))
+    env.check_true(not bad, f"{NAMES[cls]}: arithmetic with every numeric scalar type gives the reference value", detail=str(bad[:4]))
+
+
 # ------------------------------------------------------------------ == (QubitHamiltonian docstring)
 def h_eq(env, L, R, pairs, canary=False):
     desc = f"{NAMES[L]} == {NAMES[R]}"
@@ -594,6 +642,8 @@ def shapes(tier, seed):
     w1, w2 = all_words(1), all_words(2)
     w3 = all_words(3)
     r3 = sub("mf3")
+    for cls in ("F", "Fa", "Q", "H", "Hb"):
+        out.append(Shape(f"scalar-types/{cls}", h_scalar_types, dict(cls=cls), modules=()))
     out.append(Shape("multiform/encode/n1", h_mf_encode, dict(n=1, word_sets=[(w,) for w in w1] + [(w1[1], w1[3])]), modules=MODS))
     out.append(Shape("multiform/encode/n2", h_mf_encode, dict(n=2, word_sets=[(w,) for w in w2] + [tuple(r3.sample(w2, 2)) for _ in range(6)]), modules=MODS))
     out.append(Shape("multiform/encode/n3", h_mf_encode, dict(n=3, word_sets=[(w,) for w in (w3 if tier == "thorough" else r3.sample(w3, 16))]
